@@ -93,6 +93,13 @@ type fakeClock struct {
 	nextID   int
 	// roundedUp counts timers armed for less than one tick.
 	roundedUp int
+	// busy: a due timer / deadline has been delivered to the goroutine of
+	// the clock under test and that goroutine has not yet come back to its
+	// select (it re-arms a base timer right before). While busy, no
+	// further delivery is made unless everything is quiescent: at most one
+	// case of the goroutine's select is ever ready when it is evaluated,
+	// so Go's random choice among ready cases never comes into play.
+	busy bool
 }
 
 func (c *fakeClock) at(t int) time.Time { return epoch.Add(time.Duration(t) * tick) }
@@ -126,6 +133,7 @@ func (c *fakeClock) NewTimer(d time.Duration) (clock.Timer, <-chan time.Time) {
 	if c.x != nil {
 		c.x.ResetLocal(fmt.Sprintf("armed:%d", t.deadline-c.now))
 	}
+	c.busy = false
 	return t, t.ch
 }
 
@@ -166,8 +174,22 @@ func (c *fakeClock) dueContexts() []*fakeContext {
 	return l
 }
 
+func (c *fakeClock) isBusy() bool {
+	c.mu.Lock()
+	defer c.mu.Unlock()
+	return c.busy
+}
+
+func (c *fakeClock) deliverContext(f *fakeContext) {
+	c.mu.Lock()
+	c.busy = true
+	c.mu.Unlock()
+	f.finish(context.DeadlineExceeded)
+}
+
 func (c *fakeClock) deliverTimer(t *fakeTimer) {
 	c.mu.Lock()
+	c.busy = true
 	t.state = 1
 	v := c.at(c.now)
 	c.mu.Unlock()
@@ -184,7 +206,7 @@ func (c *fakeClock) key() string {
 	c.mu.Lock()
 	defer c.mu.Unlock()
 	var b strings.Builder
-	fmt.Fprintf(&b, "now=%d|T", c.now)
+	fmt.Fprintf(&b, "now=%d,busy=%v|T", c.now, c.busy)
 	var ts []string
 	for _, t := range c.timers {
 		if t.state == 0 {
